@@ -61,6 +61,9 @@ func (h *Harness) feed(ev *Event) {
 				x.fedEv[o] = h.StartEv
 			}
 		}
+		if pk.Off+pk.Len > x.FedHigh {
+			x.FedHigh = pk.Off + pk.Len
+		}
 	}
 	h.Kind = CallNone
 	if h.Lifecycle && h.NoKeep {
@@ -88,16 +91,13 @@ func (h *Harness) stateHash() uint64 {
 	// pages in use bucket, pool size
 	var acc uint64 = 1469598103934665603
 	mix := func(v uint64) { acc = (acc ^ v) * 1099511628211 }
+	var sum uint64
 	for _, s := range h.Streams {
 		if s.Completed > 0 {
-			mix(0xdead)
+			sum += 0xdead
 			continue
 		}
-		for di := 0; di < len(h.P.Dirs); di++ {
-			x := s.sd[di]
-			if x == nil {
-				continue
-			}
+		for _, x := range s.sd {
 			pc := 0
 			switch {
 			case x.Pos == 0:
@@ -108,15 +108,15 @@ func (h *Harness) stateHash() uint64 {
 			default:
 				pc = 2
 			}
-			ahead := 0
-			for o := x.Pos; o < len(x.fedEv); o++ {
-				if x.fedEv[o] != 0 {
-					ahead++
-				}
+			ahead := x.FedHigh - x.Pos
+			if ahead < 0 {
+				ahead = 0
 			}
-			mix(uint64(pc) | uint64(b2i(x.Anchored))<<2 | uint64(b2i(x.Ended))<<3 | uint64(b2i(x.Skipped > 0))<<4 | uint64(min(ahead/1900, 7))<<5 | uint64(b2i(ahead > 0))<<8)
+			v := uint64(pc) | uint64(b2i(x.Anchored))<<2 | uint64(b2i(x.Ended))<<3 | uint64(b2i(x.Skipped > 0))<<4 | uint64(min(ahead/1900, 7))<<5 | uint64(b2i(ahead > 0))<<8
+			sum += (v + 1) * 0x9e3779b97f4a7c15
 		}
 	}
+	mix(sum)
 	mix(uint64(min(h.A.PagesUsed(), 9)))
 	mix(uint64(h.A.PoolConns()))
 	return acc
